@@ -284,6 +284,78 @@ def run(ctx):
         ck.ob("R10d", f"docs figure leaf={leaf}", got == want and in_doc,
               f"native cost of the 512-leaf complete tree with {leaf}-byte leaves is {want} (docs/sha256tree.md)",
               detail={"formula value": got, "printed in docs": in_doc})
+    # ------------------------------------------------------------------ R10e: what a per-byte constant multiplies
+    ck.rule("R10e", "a per-byte cost constant multiplies a byte length of the operator's input (or a fixed result size), never the length of a constant or the magnitude of an argument")
+    OPMODS = ("more_ops", "bls_ops", "secp_ops", "keccak256_ops", "core_ops", "op_utils", "sha_tree_op", "treehash")
+    n_pb = 0
+    for p_, f_ in sorted(cr.fns.items()):
+        if is_test_fn(f_) or p_.split("::")[0] not in OPMODS:
+            continue
+
+        def israte(op):
+            sx = show(f_.expr_op(op))
+            if re.search(r"COST_PER_(\w+_)?BYTE\b", sx):
+                return True
+            e_ = strip(f_.expr_op(op, deep=False))
+            if e_[0] in ("var", "named"):
+                ds_ = [show(f_.expr_rvalue(f_.def_rvalue(d_))) for d_ in f_.defs(e_[2]) if d_[1] != "T"]
+                if ds_ and all(re.search(r"COST_PER_(\w+_)?BYTE\b", x) for x in ds_):
+                    return True
+            # field k of a tuple selected per cost model: (BASE, PER_ARG, PER_BYTE) = if new { .. } else { .. }
+            pl_ = mir.op_place(op)
+            for _hop in range(3):       # through copy temporaries
+                if pl_ and not pl_["p"] and len(f_.defs(pl_["l"])) == 1 and f_.defs(pl_["l"])[0][1] != "T" \
+                        and "use" in f_.def_rvalue(f_.defs(pl_["l"])[0]) and mir.op_place(f_.def_rvalue(f_.defs(pl_["l"])[0])["use"]):
+                    pl_ = mir.op_place(f_.def_rvalue(f_.defs(pl_["l"])[0])["use"])
+            if pl_ and len(pl_["p"]) == 1 and isinstance(pl_["p"][0], dict) and str(pl_["p"][0].get("f", "")).isdigit():
+                k_ = int(pl_["p"][0]["f"])
+                els = []
+                for d_ in f_.defs(pl_["l"]):
+                    rv_ = f_.def_rvalue(d_) if d_[1] != "T" else {}
+                    if "agg" in rv_ and rv_["agg"][0] == "tuple" and k_ < len(rv_["agg"][1]):
+                        els.append(show(f_.expr_op(rv_["agg"][1][k_])))
+                    else:
+                        return False
+                return bool(els) and all(re.search(r"COST_PER_(\w+_)?BYTE\b", x) for x in els)
+            return False
+        for b_ in sorted(f_.reachable_blocks()):
+            items = []
+            for st in f_.stmts(b_):
+                rv = st.get("rv", {})
+                if "bin" in rv and rv["bin"][0].startswith("Mul"):
+                    items.append((rv["bin"][1], rv["bin"][2], st["ln"]))
+            t_ = f_.term(b_)
+            if t_["k"] == "call" and (t_.get("callee") or "").split("::")[-1] in ("checked_mul", "saturating_mul", "wrapping_mul") and len(t_["args"]) == 2:
+                items.append((t_["args"][0], t_["args"][1], t_["ln"]))
+            for x_, y_, ln_ in items:
+                rx, ry = israte(x_), israte(y_)
+                if rx == ry:
+                    continue
+                m_ = show(f_.expr_op(y_ if rx else x_))
+                n_pb += 1
+                why = None
+                mc_ = re.search(r"::len\(&?\*?\(?&?\*?(b'[0-9a-f]*')", m_)
+                if mc_:
+                    # charging the length of a constant is right when the constant is what is processed (bls_verify's fixed
+                    # domain-separation tag); it is wrong when the constant is only the DEFAULT of an optional operand (a local
+                    # that is assigned the constant on one path and an input on another): then the operand given must be charged
+                    lit = mc_.group(1)
+                    default_of = []
+                    for l_ in range(f_.nargs + 1, len(f_.locals)):
+                        if f_.local_ty(l_) in ("u64", "usize", "u32", "u8", "i64", "bool") or f_.local_ty(l_).startswith("("):
+                            continue        # the operand itself (bytes / Atom), not a number computed from it
+                        ds_ = [show(f_.expr_rvalue(f_.def_rvalue(d_))) if d_[1] != "T" else "call" for d_ in f_.defs(l_)]
+                        if len(ds_) >= 2 and any(lit in x for x in ds_) and any(lit not in x for x in ds_):
+                            default_of.append(l_)
+                    if default_of:
+                        why = "the length of a constant that is only the default of an optional operand (the operand actually used must be charged)"
+                elif re.search(r"::limbs\(&?\(", m_) or re.search(r"::limbs\(&?\*?\w+::", m_):
+                    why = "the magnitude (limbs) of an argument value: arguments are charged by their atom length, only running accumulators by their magnitude"
+                if why:
+                    ck.ob("R10e", f"{p_}|per-byte term on {m_[:60]}", False, "a per-byte constant multiplies an input length or a fixed result size",
+                          site=f_.where(b_, ln_), detail={"multiplicand": m_[:200], "why": why})
+    ck.floor("per-byte cost terms in operator modules", n_pb, 30)
+
     # structure of the walk
     treeop = cr.adt("treehash::TreeOp")
     variants = [v["name"] for v in treeop["variants"]]
